@@ -12,7 +12,7 @@ THEOREMS = [("Sylvia.Thm.C14", "C14." + t) for t in
              "compatible_perm", "reply_routing_perm", "countKind_perm"]] + \
            [("Sylvia.Lemmas.Sort", "Sylvia.Gen.sortStrings_perm_eq"), ("Sylvia.Lemmas.Reply", "Sylvia.Reply.replyTable_ok")]
 
-THEOREMS = THEOREMS + [("Sylvia.Thm.ReplyOnFn", "ReplyOnFn.excludes_eq"), ("Sylvia.Thm.ReplyOnFn", "ReplyOnFn.excludes_symmetric")]
+THEOREMS = THEOREMS + [("Sylvia.Thm.ReplyOnFn", "ReplyOnFn.excludes_eq"), ("Sylvia.Thm.ReplyOnFn", "ReplyOnFn.excludes_symmetric"), ("Sylvia.Thm.ReplyDataFn", "ReplyDataFn.emit_cw_reply_on_eq")]
 
 
 def canon_facts(obs):
@@ -254,6 +254,10 @@ def run(ctx):
     ctx.cov["function_translator_replyon"] = {"source": "sylvia-derive/src/parser/attributes/msg.rs::ReplyOn::excludes", "problems": ro_problems}
     if ro_problems:
         ctx.obligation_failed("function-translator(replyon)", "; ".join(ro_problems)[:1500])
+    rd_problems = rs2lean.regenerate("replydata")
+    ctx.cov["function_translator_replydata"] = {"source": "sylvia-derive/src/contract/communication/reply.rs::ReplyData::emit_cw_reply_on", "problems": rd_problems}
+    if rd_problems:
+        ctx.obligation_failed("function-translator(replydata)", "; ".join(rd_problems)[:1500])
     c.prove(ctx, ["Sylvia.Thm.C14"], THEOREMS)
     l1_twins(ctx)
     reply_table_orders(ctx)
